@@ -281,6 +281,14 @@ def c10(tier, seed, wd, replay=None):
         if err or not ok:
             run.violation(f"after-failed-dumps|{err or 'CopyDiffers'}", f"dumps() of a 4-cycle right after a dumps() that raised (protocol {proto}): {err or 'copy differs'}",
                           {"kind": "pickle-after-failure", "protocol": proto})
+    # objects nobody looked at before the dump
+    for proto in (0, 2, 4, 5):
+        loader = ("pickle", "dill")[(proto // 2) % 2]
+        err, ok = PX.untouched_case(proto, loader)
+        run.count_class(f"untouched-objects:proto{proto},{loader}")
+        if err or not ok:
+            run.violation(f"untouched-objects|{err or 'CopyDiffers'}", f"round trip of links / law set / base object that were never read before the dump (protocol {proto}, {loader}): {err or 'uids differ'}",
+                          {"kind": "pickle-untouched", "protocol": proto, "loader": loader})
     # user subclasses that keep data in __slots__
     for proto in (2, 3, 4, 5):
         loader = ("pickle", "dill")[proto % 2]
@@ -330,6 +338,9 @@ def replay_file(path, wd):
         rec = {"id": 1, "pre": pre, "c": rp["call"], "res": r, "post": w3.project()}
         print(json.dumps(rec)[:1500])
         bad = any("fail" in v for v in ST.judge("C03", consts, [rec], wd, "replay", shards=1))
+    elif kind == "pickle-untouched":
+        err, ok = PX.untouched_case(rp["protocol"], rp["loader"])
+        bad = bool(err or not ok)
     elif kind == "pickle-slotted":
         err, ok = PX.slotted_case(rp["protocol"], rp["loader"])
         bad = bool(err or not ok)
